@@ -192,6 +192,12 @@ class Interpreter:
       sample = ('never', subgraph_index)
     else:
       sample = STATE['sample']
+      sg = self._model.subgraphs[subgraph_index]
+      if not self._preserve and index not in list(sg.inputs) + list(
+          sg.outputs):
+        # without experimental_preserve_all_tensors the memory planner may
+        # reuse an intermediate's slot: what is read back is arbitrary
+        sample = ('unpreserved', sample)
     key = (sample, subgraph_index, index)
     if key not in self._cache:
       fn = STATE['content'] or default_content
